@@ -367,17 +367,25 @@ impl Layout {
 pub struct Printer<'a> {
     pub out: String,
     pub layout: &'a Layout,
+    /// > 0 while printing a header (condition, iterable, subject): no line breaks there
+    pub no_break: u32,
+    /// > 0 inside inline containers: function bodies must stay on the line
+    pub inline_only: u32,
+    /// indentation of the statement being printed (continuation lines go deeper)
+    pub cur_ind: usize,
+    /// line breaks already placed in the current statement (each continues deeper)
+    pub breaks: usize,
 }
 
 pub fn print_program(prog: &[E], layout: &Layout) -> String {
-    let mut p = Printer { out: String::new(), layout };
+    let mut p = Printer { out: String::new(), layout, no_break: 0, inline_only: 0, cur_ind: 0, breaks: 0 };
     p.block(prog, 0);
     p.out
 }
 
 pub fn print_expr(e: &E) -> String {
     let l = Layout::canonical();
-    let mut p = Printer { out: String::new(), layout: &l };
+    let mut p = Printer { out: String::new(), layout: &l, no_break: 0, inline_only: 0, cur_ind: 0, breaks: 0 };
     p.expr(e, 0);
     p.out
 }
@@ -427,9 +435,14 @@ impl Printer<'_> {
             self.indent(ind);
             // a line that starts with '-' would continue the previous expression: parenthesise
             let saved = std::mem::take(&mut self.out);
+            let saved_ind = (self.cur_ind, self.breaks);
+            self.cur_ind = ind;
+            self.breaks = 0;
             self.stmt(e, ind);
+            self.cur_ind = saved_ind.0;
+            self.breaks = saved_ind.1;
             let text = std::mem::replace(&mut self.out, saved);
-            if text.starts_with('-') && !text.contains('\n') {
+            if text.starts_with('-') {
                 self.out.push('(');
                 self.out.push_str(&text);
                 self.out.push(')');
@@ -481,7 +494,7 @@ impl Printer<'_> {
                         self.indent(ind);
                         self.out.push_str("else if ");
                     }
-                    self.expr(c, 0);
+                    self.header(c);
                     self.out.push('\n');
                     self.block(b, ind + 2);
                 }
@@ -497,7 +510,7 @@ impl Printer<'_> {
                 for (c, b) in arms {
                     self.indent(ind + 2);
                     match c {
-                        Some(c) => self.expr(c, 0),
+                        Some(c) => self.header(c),
                         None => self.out.push_str("else"),
                     }
                     self.arm_body(b, ind + 2, c.is_none());
@@ -510,7 +523,7 @@ impl Printer<'_> {
                     if i > 0 {
                         self.out.push_str(", ");
                     }
-                    self.expr(s, 0);
+                    self.header(s);
                 }
                 self.out.push('\n');
                 for a in arms {
@@ -528,7 +541,7 @@ impl Printer<'_> {
                     }
                     if let Some(g) = &a.guard {
                         self.out.push_str(" if ");
-                        self.expr(g, 0);
+                        self.header(g);
                     }
                     self.arm_body(&a.body, ind + 2, false);
                 }
@@ -541,7 +554,7 @@ impl Printer<'_> {
             }
             E::While(until, c, b) => {
                 self.out.push_str(if *until { "until " } else { "while " });
-                self.expr(c, 0);
+                self.header(c);
                 self.out.push('\n');
                 self.block(b, ind + 2);
                 self.trim_nl();
@@ -555,7 +568,7 @@ impl Printer<'_> {
                     self.pat(p);
                 }
                 self.out.push_str(" in ");
-                self.expr(it, 0);
+                self.header(it);
                 self.out.push('\n');
                 self.block(b, ind + 2);
                 self.trim_nl();
@@ -677,6 +690,13 @@ impl Printer<'_> {
         }
     }
 
+    /// print an expression in a header position (no line breaks allowed)
+    fn header(&mut self, e: &E) {
+        self.no_break += 1;
+        self.expr(e, 0);
+        self.no_break -= 1;
+    }
+
     fn trim_nl(&mut self) {
         while self.out.ends_with('\n') {
             self.out.pop();
@@ -686,7 +706,7 @@ impl Printer<'_> {
     fn arm_body(&mut self, b: &[E], ind: usize, is_else: bool) {
         if Self::is_inlineable(b) && self.layout.pick(3) != 1 {
             self.out.push_str(if is_else { " " } else { " then " });
-            self.expr(&b[0], 0);
+            self.header(&b[0]);
             self.out.push('\n');
         } else {
             self.out.push_str(if is_else { "\n" } else { " then\n" });
@@ -695,6 +715,7 @@ impl Printer<'_> {
     }
 
     fn inline_if(&mut self, arms: &[(E, Vec<E>)], els: &Option<Vec<E>>) {
+        self.no_break += 1;
         self.out.push_str("if ");
         self.expr(&arms[0].0, 0);
         self.out.push_str(" then ");
@@ -703,6 +724,7 @@ impl Printer<'_> {
             self.out.push_str(" else ");
             self.expr(&b[0], 0);
         }
+        self.no_break -= 1;
     }
 
     /// right-hand side of an assignment: compound constructs go in block form on the same line
@@ -719,6 +741,8 @@ impl Printer<'_> {
             E::Switch(..) | E::Match(..) | E::While(..) | E::For(..) | E::Loop(..) | E::Try(..) => self.stmt(v, ind),
             E::Map(entries) if !entries.is_empty() && entries.iter().any(|(_, x)| matches!(x, E::Fn(_, _, b) if !Self::is_inlineable(b))) => {
                 // block map: one entry per indented line
+                let saved = self.cur_ind;
+                self.cur_ind = ind + 2;
                 for (k, x) in entries {
                     self.out.push('\n');
                     self.indent(ind + 2);
@@ -726,6 +750,7 @@ impl Printer<'_> {
                     self.out.push_str(": ");
                     self.expr_ind(x, 0, ind + 2);
                 }
+                self.cur_ind = saved;
             }
             E::Fn(..) => self.expr_ind(v, 0, ind),
             E::Print(..) => self.stmt(v, ind),
@@ -836,7 +861,11 @@ impl Printer<'_> {
                             self.out.push('{');
                             // a map literal / string with same quote directly inside would confuse: wrap
                             let saved = std::mem::take(&mut self.out);
+                            self.inline_only += 1;
+                            self.no_break += 1;
                             self.expr_ind(e, 0, ind);
+                            self.no_break -= 1;
+                            self.inline_only -= 1;
                             let inner = std::mem::replace(&mut self.out, saved);
                             let needs = matches!(e, E::Map(_)) || e.is_compound() || matches!(e, E::Assign(..) | E::Print(..) | E::Not(_));
                             if needs {
@@ -859,12 +888,16 @@ impl Printer<'_> {
             E::Id(s) => self.out.push_str(s),
             E::List(v) => {
                 self.out.push('[');
+                self.inline_only += 1;
                 self.items(v, ind);
+                self.inline_only -= 1;
                 self.out.push(']');
             }
             E::Tuple(v) => {
                 self.out.push('(');
+                self.inline_only += 1;
                 self.items(v, ind);
+                self.inline_only -= 1;
                 if v.len() == 1 {
                     self.out.push(',');
                 }
@@ -872,6 +905,7 @@ impl Printer<'_> {
             }
             E::Map(v) => {
                 self.out.push('{');
+                self.inline_only += 1;
                 for (i, (k, e)) in v.iter().enumerate() {
                     if i > 0 {
                         self.out.push_str(", ");
@@ -880,6 +914,7 @@ impl Printer<'_> {
                     self.out.push_str(": ");
                     self.arg(e, ind);
                 }
+                self.inline_only -= 1;
                 self.out.push('}');
             }
             E::Range(a, b, inc) => {
@@ -907,11 +942,13 @@ impl Printer<'_> {
                 let rp = child_needs_parens(*op, r, true);
                 self.paren_if(lp, l, ind);
                 // layout freedom: break after the operator onto an indented line
-                if self.layout.pick(12) == 1 {
+                if self.no_break == 0 && self.layout.pick(12) == 1 {
                     self.out.push(' ');
                     self.out.push_str(op.text());
                     self.out.push('\n');
-                    self.indent(ind + 2 + 2 * self.layout.pick(2) as usize);
+                    let _ = ind;
+                    self.breaks += 1;
+                    self.indent(self.cur_ind + 4 * self.breaks + 2 * self.layout.pick(2) as usize);
                 } else {
                     self.out.push(' ');
                     self.out.push_str(op.text());
@@ -938,6 +975,7 @@ impl Printer<'_> {
             E::Call(c, args) => {
                 self.root(c, ind);
                 self.out.push('(');
+                self.inline_only += 1;
                 for (i, (a, packed)) in args.iter().enumerate() {
                     if i > 0 {
                         self.out.push_str(", ");
@@ -949,6 +987,7 @@ impl Printer<'_> {
                         self.arg(a, ind);
                     }
                 }
+                self.inline_only -= 1;
                 self.out.push(')');
             }
             E::Pipe(a, f) => {
@@ -989,7 +1028,11 @@ impl Printer<'_> {
                     }
                     if let Some(d) = &a.default {
                         self.out.push_str(" = ");
+                        self.no_break += 1;
+                        self.inline_only += 1;
                         self.expr_ind(d, 0, ind);
+                        self.inline_only -= 1;
+                        self.no_break -= 1;
                     }
                 }
                 self.out.push('|');
@@ -997,12 +1040,14 @@ impl Printer<'_> {
                     self.out.push_str(" -> ");
                     self.out.push_str(r);
                 }
-                if Self::is_inlineable(body) && !matches!(body[0], E::Return(_) | E::Yield(_) | E::Throw(_) | E::Print(_)) && self.layout.pick(3) != 1 {
+                if Self::is_inlineable(body) && !matches!(body[0], E::Return(_) | E::Yield(_) | E::Throw(_) | E::Print(_)) && (self.inline_only > 0 || self.layout.pick(3) != 1) {
                     self.out.push(' ');
+                    self.no_break += 1;
                     self.expr_ind(&body[0], 0, ind);
+                    self.no_break -= 1;
                 } else {
                     self.out.push('\n');
-                    self.block(body, ind + 2);
+                    self.block(body, self.cur_ind + 2);
                     self.trim_nl();
                 }
             }
